@@ -193,7 +193,6 @@ def selection(repo: Repo, R, m: pt.PdkModel):
     R.check(loop_ok, rule, f"pdks/{m.name}::mos_module::match-loop", mm.site, f"{m.name}: an entry is selected iff every selector value is in its key (for/else): {loop_ok}", why="devices that miss one selector are selected (or matching ones are not)")
     # miss -> RuntimeError before next(iter())
     nx = pat.find("next(iter(subset.values()))", mm.node)
-    from . import shared
 
     ok = (not nx) or any(isinstance(n, ast.If) and ast.unparse(n.test) in ("subset", "len(subset)", "0 < len(subset)") and au.raises(n.orelse, noret) and any(t is n.test and pol for t, pol in path_conditions(mm.node, nx[0][0])) for n in au.walk_no_nested(mm.node))
     R.check(ok, rule, f"pdks/{m.name}::mos_module::no-match-raises", mm.site,
@@ -288,7 +287,6 @@ def caches(repo: Repo, R, m: pt.PdkModel):
     w = m.walker
     for meth in sorted(set(m.dispatch.values())):
         f = w.methods[meth]
-        from . import shared
 
         rets = shared.returns_of(f.node)
         reads = set()
@@ -314,8 +312,8 @@ def small_pdks(repo: Repo, R, prims):
     for rel, cls in WALKERS[1:2] + WALKERS[4:5]:
         ci = repo.cls(rel, cls)
         f = ci.methods["mos_module_call"]
-        rd = any(isinstance(n, ast.If) and ast.unparse(n.test) == "params in self.mos_modcalls" and ast.unparse(n.body[-1]) == "return self.mos_modcalls[params]" for n in au.walk_no_nested(f.node))
-        wr = bool(pat.find("self.mos_modcalls[params] = modcall", f.node))
+        rd, why_ = shared.memo_discipline(f.node, "self.mos_modcalls", "params")
+        wr = rd
         R.check(rd and wr, rule, f"{rel}::{cls}.mos_module_call", f.site, f"{cls}.mos_module_call reads and writes its own cache under the whole parameter object: {rd and wr}", why="equal primitive parameters give different device calls")
     rule = "C15.2-port-compatibility"
     sf = repo.file(F_SAMPLE)
@@ -366,7 +364,6 @@ def small_pdks(repo: Repo, R, prims):
     R.check(ok, "C15.3-selection-well-formed", key_of(mm), mm.site, f"ASAP7: device looked up by (type, threshold); a miss raises: {ok}", why="unknown combination compiles to None")
     sm = repo.func(F_SAMPLE, "SamplePdkWalker.mos_module")
     from .. import fde
-    from . import shared
 
     try:
         tab = fde.decision_table(_body(sm), [("pmos", lambda t: ast.unparse(t) in ("params.tp == MosType.PMOS", "MosType.PMOS == params.tp"))], ["<return>"], lambda v: ast.unparse(v), tolerant=True)
